@@ -23,8 +23,15 @@ pub fn c16_plan() -> Plan {
     let mut single = p.clone();
     single.name = "c16-wills-single";
     single.stepping = Stepping::Single;
+    // a full broker refuses connects: a refused CONNECT's will must leave no trace
+    let mut full = p.clone();
+    full.name = "c16-wills-broker-full";
+    full.max_connections = 2;
+    full.clients = (3, 5);
+    full.w.connect = 20;
+    full.w.link_drop = 12;
     Plan {
-        profiles: vec![p, single],
+        profiles: vec![p, single, full],
         directed: vec![],
         quick_histories: 400,
         thorough_histories: 160_000,
